@@ -132,6 +132,7 @@ class Column(ArraySchema[pd.DataFrame]):
             "description": self.description,
             "default": self.default,
             "metadata": self.metadata,
+            "drop_invalid_rows": self.drop_invalid_rows,
         }
 
     def set_name(self, name: str):
